@@ -26,14 +26,22 @@ static void _jbn_add_item(struct jbl_node *parent, struct jbl_node *node);
 
 void iwjson_ftoa(long double val, char buf[static IWNUMBUF_SIZE], size_t *out_len) {
   int len = snprintf(buf, IWNUMBUF_SIZE, "%.8Lf", val);
+  bool fixed = len < IWNUMBUF_SIZE;
+  if (!fixed) { // the plain form does not fit into the buffer: use the exponent form
+    len = snprintf(buf, IWNUMBUF_SIZE, "%.17Lg", val);
+  }
   // FIXME: Dirt hack. I won't touch global locale.
   char *cp = strchr(buf, ',');
   if (cp) {
     *cp = '.';
   }
-  if (len <= 0) {
+  if (len <= 0 || len >= IWNUMBUF_SIZE) {
     buf[0] = '\0';
     *out_len = 0;
+    return;
+  }
+  if (!fixed) {
+    *out_len = (size_t) len;
     return;
   }
   while (len > 0 && buf[len - 1] == '0') { // trim zeroes from right
